@@ -114,8 +114,8 @@ PROPS = {
                  "leaf level proved right, internal levels refuted by witnesses.",
  },
  "C17": {
-  "modules": ["OsmoVerif.Props.C17"],
-  "min_theorems": 33,
+  "modules": ["OsmoVerif.Props.C17", "OsmoVerif.Props.TieGenEpochsOps"],
+  "min_theorems": 45,
   "fingerprints": ["Epochs.*"],
   "engines": [{"name": "epochs", "kind": "pure", "n": {"quick": 24000, "thorough": 250000}, "shards": {"quick": 4, "thorough": 16}}],
   "rule": "histories of reset k (0-4 scripted subscribers) + 1-4 timers (durations 1ns..1 week, negative durations, zero start time, "
@@ -295,8 +295,8 @@ PROPS = {
   "explanation": "theorems are proved THROUGH the regenerated operator lists (Gen.CL.ops_*): a changed rounding operator in the Go source changes the model and breaks the unfolding obligations",
  },
  "C02": {
-  "modules": ["OsmoVerif.Props.C02", "OsmoVerif.Props.C02C04"],
-  "min_theorems": 50,
+  "modules": ["OsmoVerif.Props.C02", "OsmoVerif.Props.C02C04", "OsmoVerif.Props.TieGenGammKeeperOps"],
+  "min_theorems": 65,
   "fingerprints": ["Gamm.*"],
   "engines": [{"name": "gamm", "kind": "app", "n": {"quick": 2500, "thorough": 60000}, "shards": {"quick": 4, "thorough": 16}}],
   "rule": "histories of 40..140 messages on a fresh chain: 4 actors (one poor), 2..6 balancer pools (2..8 assets, weights 1:1..1:1048575, spread 0..0.5, "
@@ -377,8 +377,8 @@ PROPS = {
                  "model tied to the keeper by differential run through the real app",
  },
  "C05": {
-  "modules": ["OsmoVerif.Props.C05", "OsmoVerif.Props.TieGenRouter"],
-  "min_theorems": 27,
+  "modules": ["OsmoVerif.Props.C05", "OsmoVerif.Props.TieGenRouter", "OsmoVerif.Props.TieGenRouterOps"],
+  "min_theorems": 39,
   "fingerprints": [],
   "engines": [{"name": "router", "kind": "app", "n": {"quick": 2000, "thorough": 40000}, "shards": {"quick": 4, "thorough": 16}}],
   "rule": "histories = 2-3 balancer + 1-2 stableswap + 2-3 concentrated pools (full-range + narrow positions) over 4-5 denoms, 3-10 prior swaps/joins/positions, "
@@ -452,8 +452,8 @@ PROPS = {
                  "(calc and mutating variants, post-state included); the oracle evaluates the continuum clauses with tolerances derived from powPrecision",
  },
  "C11": {
-  "modules": ["OsmoVerif.Props.C11", "OsmoVerif.Props.C11Refresh", "OsmoVerif.Props.TieGenSuperfluid"],
-  "min_theorems": 90,
+  "modules": ["OsmoVerif.Props.C11", "OsmoVerif.Props.C11Refresh", "OsmoVerif.Props.TieGenSuperfluid", "OsmoVerif.Props.TieGenSuperfluidOps"],
+  "min_theorems": 105,
   "fingerprints": [],
   "engines": [{"name": "superfluid", "kind": "app", "n": {"quick": 20000, "thorough": 200000}, "shards": {"quick": 4, "thorough": 16}, "env": NO_EXPORT_IMPORT}],
   "rule": "history 0 of every shard is the scripted witness of the recorded findings; then histories of five classes (random 25%, dust 20%, slash 25%, "
